@@ -347,9 +347,10 @@ class JSSPDomainWallHamiltonianEncoder:
             start_variable = self._operation_start_variables[last_operation]
             for start_time in start_variable.values:
                 operation_end = start_time + last_operation.processing_duration
+                # Divide the integers before multiplying with the observable, since the power alone may be too large
+                # to be converted to a floating point number for large makespan limits.
                 local_terms.append(
-                    (1 / max_optimization_value)
-                    * (n_jobs + 1) ** operation_end
+                    ((n_jobs + 1) ** operation_end / max_optimization_value)
                     * start_variable.value_term(value=start_time, quantum_circuit_n_qubits=self._n_qubits)
                 )
 
